@@ -122,6 +122,13 @@ def configs(tier):
         for edges in dags(2):
             if edges:
                 out.append(dict(kind='profiles', profs=(p0, p1), edges=edges, ext=None, etype='special'))
+    # start-up events that resolve to "no event" (conditional events): they must have no effect
+    # at all - the reference sees no edges ('wires' are the events really configured)
+    for (p0, p1) in itertools.product(SEL20, repeat=2):
+        for edges in dags(2):
+            if edges:
+                out.append(dict(kind='profiles', profs=(p0, p1), edges=(), wires=edges, ext=None,
+                                etype='condnone'))
     sel3 = SEL8 if tier == 'quick' else SEL20[:12]
     d3 = dags(3)
     for profs in itertools.product(sel3, repeat=3):
@@ -137,6 +144,11 @@ def configs(tier):
         for acleanup in (False, True):
             for slowinit in (False, True):
                 out.append(dict(kind='firsteval', cb=cb, acleanup=acleanup, slowinit=slowinit))
+    # circuits whose first evaluation takes tens .. thousands of block evaluations
+    for n in ((30, 150, 600) if tier == 'quick' else (16, 17, 30, 100, 101, 150, 600, 2500)):
+        for cb in ('ok', 'raise'):
+            for shape in ('chain', 'fan'):
+                out.append(dict(kind='firsteval', cb=cb, acleanup=False, slowinit=False, large=(shape, n)))
     for first in (0, 1, 2, 3, None):
         for initdef in (False, True):
             for asyncf in (False, True):
@@ -225,8 +237,10 @@ def run_profiles(cfg, order, acc):
                 bcfg['init_regular'] = ('raise', Fault('init_regular'))
             if idf:
                 kw['initdef'] = f'initdef{i}'
-            outs = [edzed.Event(f'b{j}', SpecialEv() if cfg.get('etype') == 'special' else 'ev')
-                    for (a_, j) in edges if a_ == i]
+            etype = cfg.get('etype')
+            outs = [edzed.Event(f'b{j}', SpecialEv() if etype == 'special' else
+                                edzed.EventCond(None, 'ev') if etype == 'condnone' else 'ev')
+                    for (a_, j) in cfg.get('wires', edges) if a_ == i]
             if outs:
                 kw['on_output'] = outs
             blocks[i] = cls(f'b{i}', log=log, cfg=bcfg, **kw)
@@ -422,6 +436,13 @@ def run_firsteval(cfg, acc):
     with Sim() as sim:
         circuit = sim.circuit
         src = edzed.Input('src', initdef=1)
+        if cfg.get('large'):
+            # n healthy blocks are evaluated before the last one (which fails if cb == 'raise')
+            shape, n = cfg['large']
+            prev = src
+            for i in range(n):
+                prev = edzed.Not(f'n{i}').connect(prev if shape == 'chain' else src)
+            src = prev
         if cfg['cb'] == 'ok':
             edzed.FuncBlock('f', func=lambda a: a).connect(src)
         elif cfg['cb'] == 'raise':
@@ -471,10 +492,16 @@ def run_firsteval(cfg, acc):
                          f"is_ready/error/outputs = {res[tag + '_state']}"))
         if not exp_fail and got != 'returned':
             viol.append(('wait_init-raised', f"healthy circuit: wait_init() ({tag}) {got}"))
+        if not exp_fail and got == 'returned':
+            undef = sum(1 for o in res[tag + '_state'][2] if o is edzed.UNDEF)
+            if undef:
+                viol.append(('undefined-output-after-wait_init',
+                             f"{cfg.get('large')}: wait_init() ({tag}) returned while {undef} of "
+                             f"{len(res[tag + '_state'][2])} blocks have no output yet"))
     if exp_fail and (res['alive'] or not isinstance(res['exc'], Exception)):
         viol.append(('first-evaluation-error-ignored', f"{cfg}: alive={res['alive']} exc={res['exc']!r}"))
-    acc.outcome(('firsteval', cfg['cb'], cfg['acleanup'], cfg['slowinit'], res['w_early'], res['w_late']))
-    acc.state(('firsteval', cfg['cb'], cfg['acleanup'], cfg['slowinit']))
+    acc.outcome(('firsteval', cfg['cb'], cfg['acleanup'], cfg['slowinit'], cfg.get('large'), res['w_early'], res['w_late']))
+    acc.state(('firsteval', cfg['cb'], cfg['acleanup'], cfg['slowinit'], cfg.get('large')))
     return viol
 
 
@@ -598,7 +625,8 @@ def run_initasync(cfg, acc):
 
 
 def cfg_key(cfg):
-    return (cfg['profs'], cfg['edges'], cfg['ext'], cfg.get('ts'), cfg.get('exp'), cfg.get('etype'))
+    return (cfg['profs'], cfg['edges'], cfg['ext'], cfg.get('ts'), cfg.get('exp'), cfg.get('etype'),
+            cfg.get('wires'))
 
 
 def run_config(cfg):
